@@ -112,8 +112,10 @@ type chunkUDP struct {
 func newChunkUDP(srcAddr, dstAddr *net.UDPAddr) *chunkUDP {
 	return &chunkUDP{
 		chunkIP: chunkIP{
-			sourceIP:      srcAddr.IP,
-			destinationIP: dstAddr.IP,
+			// The addresses belong to the caller (e.g. the argument of WriteTo),
+			// who may change them once the call has returned.
+			sourceIP:      append(net.IP(nil), srcAddr.IP...),
+			destinationIP: append(net.IP(nil), dstAddr.IP...),
 			tag:           assignChunkTag(),
 		},
 		sourcePort:      srcAddr.Port,
